@@ -12,12 +12,32 @@ def J(name, defs, desc, inputs, **kw):
 import os
 SOLVER_NUM = os.environ.get('C16_SOLVER', 'cadical')
 
+# the float/exponent loops of parse_numeric are unreachable for a saved integer: 1 unwinding each; the unwinding assertions
+# prove that (a reachable second iteration would make the run inconclusive)
+NUMUW = ['parse_numeric.%d:1' % k for k in range(1, 6)]
+
 def W(c, r=100):
     return ('%dLL' % (c - r), '%dLL' % (c + r))
 WQ = [('small', '-3000LL', '3000LL'), ('int32max',) + W(2**31), ('int32min',) + W(-2**31), ('p10_10',) + W(10**10),
       ('int64max', '%dLL' % (2**63 - 200), '%dLL' % (2**63 - 1)), ('int64min', '(-%dLL-1)' % (2**63 - 1), '(-%dLL)' % (2**63 - 200))]
 WT = WQ + [('uint32',) + W(2**32)] + [('p10_%d' % k,) + W(10**k) for k in (5, 9, 12, 15, 18)] + [('m10_%d' % k,) + W(-10**k) for k in (5, 10, 18)]
 WINDOWS = {'quick': WQ, 'thorough': WT}
+def LL(v):
+    return '(-%dLL-1)' % (2**63 - 1) if v == -2**63 else '%dLL' % v
+def GW(tier):
+    """wide windows decided with the guess-and-check formatting model: every |n| < 10^7, then +-10^6 around every power of ten,
+    around +-2^31, +-2^32 and at both ends of the int64 range; thorough adds whole digit classes of 8..10 digits"""
+    r = 10**6
+    w = [('upto7', -(10**7) + 1, 10**7 - 1)]
+    for k in range(8, 19):
+        w.append(('p10_%d' % k, 10**k - r, 10**k + r)); w.append(('m10_%d' % k, -10**k - r, -10**k + r))
+    for (nm, c) in (('p2_31', 2**31), ('m2_31', -2**31), ('p2_32', 2**32), ('m2_32', -2**32)):
+        w.append((nm, c - r, c + r))
+    w.append(('int64max', 2**63 - 1 - r, 2**63 - 1)); w.append(('int64min', -2**63, -2**63 + r))
+    if tier != 'quick':
+        for k in (8, 9, 10):
+            w.append(('d%d' % k, 10**(k - 1), 10**k - 1)); w.append(('md%d' % k, -(10**k) + 1, -(10**(k - 1))))
+    return [(nm, LL(lo), LL(hi)) for (nm, lo, hi) in w]
 
 def jobs(tier, ctx):
     q = tier == 'quick'
@@ -26,15 +46,34 @@ def jobs(tier, ctx):
     out = [
     ] + [
         J('roundtrip_number.%s' % nm, ['MODE_NUM=1', 'WLO=%s' % lo, 'WHI=%s' % hi], 'restore_svalue(save_variable(n)) == n and the save buffer is large enough, for every n in [%s, %s]' % (lo, hi),
-          'n: int64 in the window', solver=SOLVER_NUM, targets=['parse_numeric', 'svalue_save_size', 'save_svalue'])
+          'n: int64 in the window', solver=SOLVER_NUM, targets=['parse_numeric', 'svalue_save_size', 'save_svalue'], unwindset=NUMUW, mem_gb=2)
         for (nm, lo, hi) in WINDOWS[tier]
     ] + [
+        J('roundtrip_number_g.%s' % nm, ['MODE_NUM=1', 'WLO=%s' % lo, 'WHI=%s' % hi, 'VERIF_FMT_GUESS=1'], 'restore_svalue(save_variable(n)) == n and the save buffer is large enough, for every n in [%s, %s] (decimal formatting of the libc model as guess-and-check)' % (lo, hi),
+          'n: int64 in the window', targets=['parse_numeric', 'svalue_save_size', 'save_svalue'], unwindset=NUMUW, mem_gb=3, timeout=(400 if not nm.startswith(('d', 'md')) else 5400))
+        for (nm, lo, hi) in GW(tier)
+    ] + [
         J('roundtrip_string.n%d' % ns, ['MODE_STR=1', 'NB=%d' % ns], 'restore(save(s)) == s and sizing is sufficient for every string of <= %d bytes (all byte values)' % ns,
-          's: %d symbolic bytes' % ns, targets=['svalue_save_size', 'save_svalue', 'restore_string']),
+          's: %d symbolic bytes' % ns, targets=['svalue_save_size', 'save_svalue', 'restore_string'], unwind=2 * ns + 6, timeout=600),
     ]
-    classes = [('str', '"\\""'), ('arr', '"({"'), ('neg', '"-"'), ('dig', '"1"'), ('cls', '"(/"'), ('other', '"x"')]
+    # the container classes ('({', '([', '(/') are NOT decided: restore_internal_size / restore_array walk the text through a
+    # char** cursor shared across recursion levels; with even one symbolic byte CBMC's symex does not finish (nested if-then-else
+    # pointer expressions, > 25 min for 2 bytes).  They stay available with C16_EXPERIMENTAL=1 (DESIGN section 10, correction 15).
+    EXP = bool(os.environ.get('C16_EXPERIMENTAL'))
+    classes = [('str', '"\\""'), ('neg', '"-"'), ('dig', '"1"'), ('other', '"x"')] + ([('arr', '"({"'), ('cls', '"(/"')] if EXP else [])
     for (nm, pfx) in classes:
-        out.append(J('robust_%s.n%d' % (nm, nb), ['MODE_ROB=1', 'NB=%d' % nb, 'PFX=' + pfx],
+      for nb in ((int(os.environ['C16_NB']),) if os.environ.get('C16_NB') else (nb,)):
+        typed = nm in ('arr', 'cls')
+        RUW = ['restore_internal_size:3', 'restore_array:2', 'restore_mapping:2', 'restore_class:2'] if typed else []
+        out.append(J('robust_%s.n%d' % (nm, nb), ['MODE_ROB=1', 'NB=%d' % nb, 'PFX=' + pfx] + (['VERIF_ARRAY_ITEMS=8', 'VERIF_NO_XALLOC=1'] if typed else []),
                      'restore_svalue on the prefix %s followed by any %d bytes: memory safe, success or ROB error, parser state idle, next restore unaffected' % (pfx, nb),
-                     '%d symbolic bytes after a concrete first-byte class' % nb, targets=['restore_svalue'], opt_witness=['error_result', 'success_result']))
+                     '%d symbolic bytes after a concrete first-byte class' % nb, targets=['restore_svalue'], opt_witness=['error_result', 'success_result'], unwind=nb + 4, unwindset=RUW, timeout=600, **({'stubs': BASE + ['@harness/C16/stubs.c', '@world/typed_arrays.c']} if typed else {})))
+    # single-byte damage of well-formed container texts (arrays, mappings, classes, nesting): one job per (text, position)
+    bases = ['({7,})', '({({7,}),8,})', '([1:2,])', '({"a",})', '(/7,/)'] if q else ['({7,})', '({({7,}),8,})', '([1:2,])', '({"a",})', '(/7,/)', '({([1:2,]),})', '([({7,}):({8,}),])', '({(/7,/),"b\\"",-1,})']
+    for bi, b in enumerate(bases if EXP else []):
+        for pos in range(len(b)):
+            out.append(J('damaged.t%d.p%d' % (bi, pos), ['MODE_MUT=1', 'NB=1', 'MUT_TEXT="%s"' % b.replace('\\', '\\\\').replace('"', '\\"'), 'POS=%d' % pos, 'VERIF_ARRAY_ITEMS=8', 'VERIF_NO_XALLOC=1'],
+                         'restore_svalue on the text %s with the byte at position %d replaced by any byte: memory safe, success or ROB error, parser state idle, next restore unaffected' % (b, pos),
+                         '1 symbolic byte', targets=['restore_svalue'], opt_witness=['error_result', 'success_result', 'undamaged_text'], unwind=len(b) + 3,
+                         unwindset=['restore_internal_size:4', 'restore_array:3', 'restore_mapping:3', 'restore_class:3'], timeout=600, stubs=BASE + ['@harness/C16/stubs.c', '@world/typed_arrays.c']))
     return out
